@@ -26,7 +26,7 @@ LEAF_SPECS = [
 OPS = ["add", "remove", "set_parent", "set_children", "set_sources", "set_sensors",
        "set_collections", "plus", "copy", "new_coll", "iadd"]
 POISONS = ["junk", "int", "none", "self", "ancestor", "dup", "parented", "not_child",
-           "bad_errors", "uncopyable", "nested_list"]
+           "bad_errors", "uncopyable", "nested_list", "bare"]
 
 
 # ----------------------------------------------------------------------------- oracle
@@ -190,6 +190,8 @@ def _resolve(world, a, target):
         return None
     if a == "$self":
         return world[target]
+    if a == "$raising_iter":
+        return _RaisingIter(world[target + 1])
     if isinstance(a, list):
         return [_resolve(world, x, target) for x in a]
     if isinstance(a, dict) and "viewof" in a:
@@ -197,6 +199,17 @@ def _resolve(world, a, target):
         c = world[a["viewof"]]
         return getattr(c, a["view"]) if hasattr(c, "_children") else []
     raise HarnessError(f"bad arg token {a!r}")
+
+
+class _RaisingIter:
+    """an iterable that yields one valid object and then fails with an exception of its own"""
+
+    def __init__(self, first):
+        self.first = first
+
+    def __iter__(self):
+        yield self.first
+        raise RuntimeError("iteration failed in user code")
 
 
 def exec_op(world, op):
@@ -225,7 +238,11 @@ def exec_op(world, op):
             elif kind in ("set_children", "set_sources", "set_sensors", "set_collections"):
                 t = world[op["t"]]
                 args = [_resolve(world, a, op["t"]) for a in op["args"]]
-                setattr(t, kind[4:], args)
+                if op.get("bare"):
+                    # a bare value instead of a list: coll.children = obj / None / 5 / 'junk'
+                    setattr(t, kind[4:], args[0] if args else None)
+                else:
+                    setattr(t, kind[4:], args)
             elif kind == "iadd":
                 # augmented assignment `t.children += [...]` (also sources/sensors/collections): Python
                 # evaluates it as  t.children = t.children.__iadd__([...])
@@ -270,6 +287,10 @@ def apply_variant(op, var):
     v = dict(op)
     k = var["kind"]
     pos = var.get("pos", 0)
+    if k == "bare":
+        v["bare"] = True
+        v["args"] = [var["ref"]] if "ref" in var else []
+        return v
     token = {"junk": "$junk", "int": "$int", "none": "$none", "self": "$self"}.get(k)
     if k in ("ancestor", "dup", "parented", "not_child"):
         token = var["ref"]
@@ -575,6 +596,10 @@ class Sim:
                         out.append({"kind": k, "pos": pos, "ref": rng.randrange(n)})
             if kind == "remove" and "bad_errors" in kinds:
                 out.append({"kind": "bad_errors", "pos": 0})
+            if kind.startswith("set_") and "bare" in kinds:
+                out.append({"kind": "bare", "ref": rng.randrange(n)})          # coll.children = obj
+                out.append({"kind": "bare", "ref": rng.choice(["$none", "$int", "$junk"])})
+                out.append({"kind": "bare", "ref": "$raising_iter"})
         elif kind == "set_parent":
             for k in kinds:
                 if k in ("junk", "int"):
